@@ -71,6 +71,64 @@ def run(ctx, res):
         if i < 3:
             res.sample({"k": k, "phase": sc["phase"], "fabric": sc["fabric"], "regime": sc["regime"], "n": sc["n"], "updates": sc["n_updates"],
                         "max|dA|": dA, "max|df|": df, "rel dF": dF})
+    # ---- further ways of posing the same strain path
+    M = impl._minerals
+    for i in range(4 if not ctx["thorough"] else 24):
+        sc = solver.make_scenario(rng, i, nmax=8, regimes=(4, 6), fields=["const"])
+        strain = solver.accumulated_strain(sc)
+        tol = _tol(sc["n_updates"], strain)
+        rep = solver.scenario_json(sc)
+        # (a) a velocity-gradient callable that returns an INTEGER-typed array, against the same path at another rate (a float array)
+        Li = np.zeros((3, 3), dtype=int)
+        a_, b_ = rng.choice(3, 2, replace=False)
+        Li[a_, b_] = int(rng.choice([1, 3, -1]))
+        sci = dict(sc, field=solver.LField(Li.astype(float)))
+        k = float(rng.choice([0.5, 1e-3, 7.0]))
+        m_int = solver.build_mineral(sci)
+        F_int = np.eye(3)
+        ts = solver.times_of(sci)
+        for u in range(sci["n_updates"]):
+            F_int = m_int.update_orientations(solver.params_of(sci), F_int, lambda t, x, Li=Li: Li, (ts[u], ts[u + 1], lambda t: np.zeros(3)))
+        sck = dict(sci, field=sci["field"].scaled(k), F0=np.eye(3))
+        m_k, F_k, _ = solver.run_scenario(sck, times=ts / k, record=False)
+        res.evaluations += 2
+        res.count("integer_typed_velocity_gradient")
+        res.nontrivial(("c05int", i))
+        d = max(float(np.abs(x - y).max()) for x, y in zip(m_int.orientations + m_int.fractions, m_k.orientations + m_k.fractions))
+        dF = float(np.abs(np.asarray(F_int, float) - F_k[-1]).max())
+        tol_i = _tol(sci["n_updates"], solver.accumulated_strain(sci))
+        if d > tol_i or dF > tol_i * max(1.0, np.abs(F_k[-1]).max()):
+            res.violation("rate_invariance:integer_typed_L", f"L returned as an integer array vs the same path at rate k={k:g} (float array): "
+                          f"textures differ by {d:.3e}, F by {dF:.3e}", dict(rep, L=Li.tolist(), k=k))
+        # (b) the bulk driver update_all at laboratory, geological and fast rates
+        for kk in (1e-15, 1e-8, 1e3):
+            sck = dict(sc, field=sc["field"].scaled(kk))
+            ms1, ms2 = [solver.build_mineral(sc)], [solver.build_mineral(sck)]
+            F1, F2 = np.array(sc["F0"], float), np.array(sc["F0"], float)
+            ts = solver.times_of(sc)
+            for u in range(sc["n_updates"]):
+                F1 = M.update_all(ms1, solver.params_of(sc), F1, sc["field"], (ts[u], ts[u + 1], sc["field"].pos))
+                F2 = M.update_all(ms2, solver.params_of(sck), F2, sck["field"], (ts[u] / kk, ts[u + 1] / kk, sck["field"].pos))
+            res.evaluations += 2
+            res.count(f"update_all:k={kk:g}")
+            d = max(float(np.abs(x - y).max()) for x, y in zip(ms1[0].orientations + ms1[0].fractions, ms2[0].orientations + ms2[0].fractions))
+            dF = float(np.abs(F1 - F2).max() / max(1.0, np.abs(F1).max()))
+            if len(ms1[0].fractions) != len(ms2[0].fractions) or d > tol or dF > tol:
+                res.violation("rate_invariance:update_all", f"update_all at k={kk:g}: textures differ by {d:.3e}, F by {dF:.3e}", dict(rep, k=kk))
+        # (c) a fine partition at a fast rate: update calls spanning ~1e-8 time units still carry their strain
+        scf = dict(sc, n_updates=6, span=6e-5, t0=0.0)
+        kk = 1e3
+        m1, F1s, _ = solver.run_scenario(scf, record=False)
+        sck = dict(scf, field=scf["field"].scaled(kk))
+        m2, F2s, _ = solver.run_scenario(sck, times=solver.times_of(scf) / kk, record=False)
+        res.evaluations += 2
+        res.count("fine_partition_fast_rate(dt=1e-8)")
+        d = max(float(np.abs(x - y).max()) for x, y in zip(m1.orientations + m1.fractions, m2.orientations + m2.fractions))
+        dF = float(np.abs(F1s[-1] - F2s[-1]).max())
+        moved = float(np.abs(F1s[-1] - np.asarray(scf["F0"], float)).max())
+        if d > 1e-9 + 1e-3 * moved or dF > 1e-3 * moved + 1e-12:
+            res.violation("rate_invariance:fine_partition", f"six update calls of 1e-8 time units at k=1e3 vs 1e-5 at k=1: textures differ by {d:.3e}, "
+                          f"F by {dF:.3e} (F moved by {moved:.3e})", rep)
     res.notes.append(f"largest pair difference observed in this run: {worst:.3e} (property allows the accumulated solver tolerance)")
 
 
